@@ -70,6 +70,8 @@ pub fn choose_enc(ch: &mut Chooser) -> XEnc {
         reorder_members: ch.flag("enc.member_order"),
         rid_shuffle: ch.flag("enc.relationship_ids_shuffled"),
         indent: ch.flag("enc.xml_indented"),
+        comments: ch.flag("enc.xml_comments_between_elements"),
+        extras: ch.flag("enc.optional_neighbours_of_sheetData"),
         rels_target_first: ch.flag("enc.rels_target_before_type"),
         rows_never_r: ch.flag("enc.rows_never_carry_r"),
         split_text_nodes: ch.flag("enc.formula_text_split_by_cdata_and_comment"),
